@@ -4,10 +4,9 @@ Require Import List ZArith Bool Lia.
 Import ListNotations.
 
 (* ------------------------------------------------------------------ vocabulary *)
-Definition plain (j : job) : Prop := jdmap j = None /\ jctx j = None.
 Definition okj (j : job) : Prop := exists b, eff_body j = Some b.
 Definition jwf (j : job) : Prop := jid j = None -> jst j <> SUCCESS.
-Definition good (j : job) : Prop := plain j /\ okj j /\ jwf j.
+Definition good (j : job) : Prop := okj j /\ jwf j.
 
 (* the file is exactly the image of memory *)
 Definition Exact (m : mach) : Prop := save (mem m) = Some (disk m).
@@ -15,7 +14,7 @@ Definition Exact (m : mach) : Prop := save (mem m) = Some (disk m).
    this is exactly RemoteJob._to_dict *)
 Definition obs : job -> option djob := to_disk.
 (* re-opening the group by name yields the same observable list *)
-Definition reload_equiv (m : mach) : Prop := map obs (load (disk m)) = map obs (mem m).
+Definition reload_equiv (m : mach) : Prop := map obs (load cur (disk m)) = map obs (mem m).
 (* identifiers and metadata, position by position *)
 Definition skeleton (m : mach) : Prop :=
   map (fun d => (d_id d, d_meta d)) (disk m) = map (fun j => (jid j, jmeta j)) (mem m).
@@ -60,7 +59,7 @@ Qed.
 Lemma save_good l : Forall good l -> exists d, save l = Some d.
 Proof.
   induction 1 as [|j r Hj _ IH]; simpl; [eexists; reflexivity|].
-  destruct IH as [d ->]. destruct Hj as (_ & [b Hb] & _).
+  destruct IH as [d ->]. destruct Hj as ([b Hb] & _).
   unfold to_disk. destruct (success (jst j)); [eexists; reflexivity|]. rewrite Hb. eexists; reflexivity.
 Qed.
 
@@ -75,52 +74,52 @@ Proof.
 Qed.
 
 Lemma from_disk_body i so meta b : so <> Some SUCCESS ->
-  from_disk (mkdjob i so meta (Some b)) =
-  mkjob i (match so with Some s => s | None => WAITING end) 0 (b_name b) (b_pay b) None None None meta.
+  from_disk cur (mkdjob i so meta (Some b)) =
+  mkjob i (match so with Some s => s | None => WAITING end) 0 (b_name b) (b_pay b) None None (b_ctx b) meta.
 Proof. intros H. unfold from_disk; simpl. destruct so as [[]|]; try reflexivity. congruence. Qed.
 
-Lemma eff_body_loaded i s e meta b : clamp (b_pay b) = Some (b_pay b) -> b_ctx b = None ->
-  eff_body (mkjob i s e (b_name b) (b_pay b) None None None meta) = Some b.
-Proof. intros H1 H2. unfold eff_body, ectx; simpl. rewrite H1. destruct b; simpl in *; subst; reflexivity. Qed.
+Lemma eff_body_loaded i s e meta b : clamp (b_pay b) = Some (b_pay b) ->
+  eff_body (mkjob i s e (b_name b) (b_pay b) None None (b_ctx b) meta) = Some b.
+Proof. intros H1. unfold eff_body, ectx; simpl. rewrite H1. destruct b; reflexivity. Qed.
 
-Lemma eff_body_shape j b : plain j -> eff_body j = Some b -> clamp (b_pay b) = Some (b_pay b) /\ b_ctx b = None.
+Lemma eff_body_shape j b : eff_body j = Some b -> clamp (b_pay b) = Some (b_pay b).
 Proof.
-  intros [Hm Hc] Hb. unfold eff_body in Hb. destruct (clamp _) eqn:E; inversion Hb; subst; simpl.
-  split; [eapply clamp_idem; exact E|]. unfold ectx. rewrite Hm, Hc. reflexivity.
+  intros Hb. unfold eff_body in Hb. destruct (clamp _) eqn:E; inversion Hb; subst; simpl.
+  eapply clamp_idem; exact E.
 Qed.
 
-Lemma roundtrip j d : good j -> to_disk j = Some d -> to_disk (from_disk d) = Some d /\ good (from_disk d).
+Lemma roundtrip j d : good j -> to_disk j = Some d -> to_disk (from_disk cur d) = Some d /\ good (from_disk cur d).
 Proof.
-  intros (Hp & [b Hb] & Hwf) H. unfold to_disk in H.
+  intros ([b Hb] & Hwf) H. unfold to_disk in H.
   destruct (success (jst j)) eqn:Es.
   - destruct (jst j) eqn:Est; try discriminate Es.
     assert (Hs : sent j = true).
     { unfold sent. destruct (jid j) eqn:Ei; [reflexivity|]. exfalso. apply (Hwf Ei). exact Est. }
     rewrite Hs in H. inversion H; subst; clear H.
     unfold from_disk, to_disk, sent in *; simpl. destruct (jid j); [|discriminate]. simpl.
-    split; [reflexivity|]. repeat split; simpl; try reflexivity.
+    split; [reflexivity|]. split.
     + eexists; reflexivity.
     + intros Hn; discriminate Hn.
   - rewrite Hb in H. inversion H; subst; clear H.
-    destruct (eff_body_shape j b Hp Hb) as [Hcl Hctx].
+    pose proof (eff_body_shape j b Hb) as Hcl.
     rewrite from_disk_body.
     2:{ destruct (sent j); [|discriminate]. intros Hn; inversion Hn as [Hn']. rewrite Hn' in Es. discriminate Es. }
     split.
     + unfold to_disk. rewrite eff_body_loaded by assumption. unfold sent; simpl.
       destruct (jid j); simpl; [rewrite Es|]; reflexivity.
-    + split; [split; reflexivity|]. split.
+    + split.
       * unfold okj. rewrite eff_body_loaded by assumption. eexists; reflexivity.
       * intros Hn. unfold jwf, sent in *. simpl in *. rewrite Hn. discriminate.
 Qed.
 
-Lemma roundtrip_list l d : Forall good l -> save l = Some d -> save (load d) = Some d /\ Forall good (load d).
+Lemma roundtrip_list l d : Forall good l -> save l = Some d -> save (load cur d) = Some d /\ Forall good (load cur d).
 Proof.
   revert d. induction l as [|j r IH]; simpl; intros d Hg H.
   - inversion H; subst. simpl. split; [reflexivity|constructor].
   - inversion Hg as [|? ? Hj Hr]; subst.
     destruct (to_disk j) as [dj|] eqn:Ej; [|discriminate]. destruct (save r) as [dr|] eqn:Er; [|discriminate].
     inversion H; subst; clear H. destruct (roundtrip j dj Hj Ej) as [H1 H2].
-    destruct (IH dr Hr eq_refl) as [H3 H4]. change (load (dj :: dr)) with (from_disk dj :: load dr).
+    destruct (IH dr Hr eq_refl) as [H3 H4]. change (load cur (dj :: dr)) with (from_disk cur dj :: load cur dr).
     cbn [save]. rewrite H1, H3. split; [reflexivity|constructor; assumption].
 Qed.
 
@@ -153,7 +152,7 @@ Lemma restat_sent j s e : sent (restat j s e) = sent j. Proof. reflexivity. Qed.
 
 Lemma restat_good j s e : good j -> sent j = true -> good (restat j s e).
 Proof.
-  intros (Hp & Ho & _) Hs. split; [exact Hp|]. split; [exact Ho|].
+  intros (Ho & _) Hs. split; [exact Ho|].
   intros Hn. unfold sent in Hs. simpl in Hn. rewrite Hn in Hs. discriminate Hs.
 Qed.
 
@@ -318,9 +317,9 @@ Proof.
   - simpl. apply LInv_written; assumption.
 Qed.
 
-Lemma LInv_replace ex pre j cur rest dk dirty dy :
-  LInv ex (pre ++ j :: rest) dk dirty -> good cur -> jid cur = jid j -> jmeta cur = jmeta j ->
-  (dy = false -> dirty = false /\ to_disk cur = to_disk j) -> LInv ex (pre ++ cur :: rest) dk dy.
+Lemma LInv_replace ex pre j cj rest dk dirty dy :
+  LInv ex (pre ++ j :: rest) dk dirty -> good cj -> jid cj = jid j -> jmeta cj = jmeta j ->
+  (dy = false -> dirty = false /\ to_disk cj = to_disk j) -> LInv ex (pre ++ cj :: rest) dk dy.
 Proof.
   intros (Hg & Hk & Hs & Hdk) Hc Hi Hm Hd. split; [eapply Forall_replace; eassumption|]. split; [|split].
   - unfold skel in *. rewrite (skel_replace pre j); assumption.
@@ -328,27 +327,26 @@ Proof.
   - exact Hdk.
 Qed.
 
-Lemma lstop_inv ex pre j cur post app dk sc lg dirty dy e :
-  LInv ex (pre ++ j :: post ++ app) dk dirty -> good cur -> jid cur = jid j -> jmeta cur = jmeta j ->
-  (dy = false -> dirty = false /\ to_disk cur = to_disk j) ->
-  lres_inv ex post (lstop pre cur post app dk sc lg dy e).
+Lemma lstop_inv ex pre j cj post app dk sc lg dirty dy e :
+  LInv ex (pre ++ j :: post ++ app) dk dirty -> good cj -> jid cj = jid j -> jmeta cj = jmeta j ->
+  (dy = false -> dirty = false /\ to_disk cj = to_disk j) ->
+  lres_inv ex post (lstop pre cj post app dk sc lg dy e).
 Proof. intros. simpl. eapply LInv_replace; eassumption. Qed.
 
 Lemma Forall_drop_mid {A} (P : A -> Prop) pre x rest : Forall P (pre ++ x :: rest) -> Forall P (pre ++ rest).
 Proof. rewrite !Forall_app. intros [H1 H2]. inversion H2; subst. split; assumption. Qed.
 
-Lemma rerun_job_good j b i : plain j -> eff_body j = Some b -> good (rerun_job j b i) /\ sent (rerun_job j b i) = true.
+Lemma rerun_job_good j b i : eff_body j = Some b -> good (rerun_job cur j b i) /\ sent (rerun_job cur j b i) = true.
 Proof.
-  intros Hp Hb. destruct (eff_body_shape j b Hp Hb) as [Hcl Hctx]. unfold rerun_job.
-  rewrite from_disk_body by discriminate. split; [|reflexivity].
-  split; [split; reflexivity|]. split.
+  intros Hb. pose proof (eff_body_shape j b Hb) as Hcl. unfold rerun_job.
+  rewrite from_disk_body by discriminate. split; [|reflexivity]. split.
   - unfold okj. rewrite eff_body_loaded by assumption. eexists; reflexivity.
   - intros Hn; discriminate Hn.
 Qed.
 
 Lemma rerun_after_status_inv ex seq repl pre j s e post app dk sc lg dirty :
   LInv ex (pre ++ j :: post ++ app) dk dirty -> (sent j = true \/ restat j s e = j) ->
-  lres_inv ex post (rerun_after_status seq repl pre j (restat j s e) post app dk sc lg dirty).
+  lres_inv ex post (rerun_after_status cur seq repl pre j (restat j s e) post app dk sc lg dirty).
 Proof.
   intros HI Hse. pose proof HI as (Hg & _ & _). pose proof (Forall_mid _ _ _ _ Hg) as Hj.
   assert (Hj1 : good (restat j s e)) by (destruct Hse as [Hs| ->]; [apply restat_good; assumption|exact Hj]).
@@ -356,10 +354,10 @@ Proof.
   { intros E. apply orb_false_iff in E. destruct E as [E1 E2]. split; [exact E1|apply to_disk_unchanged; exact E2]. }
   unfold rerun_after_status.
   destruct (failed (jst (restat j s e))).
-  - rewrite restat_eff. destruct Hj as (Hp & [b Hb] & Hw). rewrite Hb. rewrite restat_jid.
+  - rewrite restat_eff. destruct Hj as ([b Hb] & Hw). rewrite Hb. rewrite restat_jid.
     destruct (jid j) as [i|] eqn:Ei.
     + destruct (pop sc) as [a sc2]. destruct a as [i' s'| |].
-      * destruct (rerun_job_good (restat j s e) b i') as [Hx Hsx]; [exact Hp|rewrite restat_eff; exact Hb|].
+      * destruct (rerun_job_good (restat j s e) b i') as [Hx Hsx]; [rewrite restat_eff; exact Hb|].
         apply launched_inv; [eapply Forall_drop_mid; exact Hg|exact Hj1|exact Hx|exact Hsx].
       * eapply lstop_inv; [exact HI|exact Hj1|reflexivity|reflexivity|exact Hd].
       * eapply lstop_inv; [exact HI|exact Hj1|reflexivity|reflexivity|exact Hd].
@@ -375,7 +373,7 @@ Qed.
 
 Lemma launch_one_inv ex rerun seq repl pre j post app dk sc lg dirty :
   LInv ex (pre ++ j :: post ++ app) dk dirty ->
-  lres_inv ex post (launch_one rerun seq repl pre j post app dk sc lg dirty).
+  lres_inv ex post (launch_one cur rerun seq repl pre j post app dk sc lg dirty).
 Proof.
   intros HI. pose proof HI as (Hg & _ & _). pose proof (Forall_mid _ _ _ _ Hg) as Hj.
   assert (Hsame : forall d : bool, d = false -> d = false /\ to_disk j = to_disk j) by (intros; split; [assumption|reflexivity]).
@@ -391,14 +389,14 @@ Proof.
     + simpl. rewrite app_cons_assoc. exact HI.
     + destruct (waiting (jst j)) eqn:Ew; simpl.
       2:{ exact HI. }
-      destruct Hj as (Hp & [b Hb] & Hw). rewrite Hb.
+      destruct Hj as ([b Hb] & Hw). rewrite Hb.
       assert (Hrefused : good (set_st j ERROR)).
-      { split; [exact Hp|]. split; [exists b; exact Hb|]. intros _; discriminate. }
+      { split; [exists b; exact Hb|]. intros _; discriminate. }
       destruct (pop sc) as [a sc1]. destruct a as [i s| |].
       * apply launched_inv.
         -- eapply Forall_drop_mid; exact Hg.
-        -- split; [exact Hp|]. split; [exists b; exact Hb|exact Hw].
-        -- split; [exact Hp|]. split; [exists b; exact Hb|]. intros Hn; discriminate Hn.
+        -- split; [exists b; exact Hb|exact Hw].
+        -- split; [exists b; exact Hb|]. intros Hn; discriminate Hn.
         -- reflexivity.
       * eapply lstop_inv; [exact HI|exact Hrefused|reflexivity|reflexivity|].
         intros E; split; [exact E|apply to_disk_refused; assumption].
@@ -408,13 +406,13 @@ Qed.
 
 Lemma launch_loop_inv ex rerun seq repl : forall post pre app dk sc lg dirty m o,
   LInv ex (pre ++ post ++ app) dk dirty ->
-  launch_loop rerun seq repl pre post app dk sc lg dirty = (m, o) ->
+  launch_loop cur rerun seq repl pre post app dk sc lg dirty = (m, o) ->
   LInv ex (mem m) (disk m) (udirty m).
 Proof.
   induction post as [|j post IH]; intros pre app dk sc lg dirty m o HI H; simpl in H.
   - inversion H; subst. exact HI.
   - pose proof (launch_one_inv ex rerun seq repl pre j post app dk sc lg dirty HI) as Hone.
-    destruct (launch_one rerun seq repl pre j post app dk sc lg dirty) as [pre' app' dk' sc' lg' d'|m' o'].
+    destruct (launch_one cur rerun seq repl pre j post app dk sc lg dirty) as [pre' app' dk' sc' lg' d'|m' o'].
     + eapply IH; [exact Hone|exact H].
     + inversion H; subst. exact Hone.
 Qed.
@@ -467,7 +465,7 @@ Proof. intros Hg Hk HD HS. split; [exact Hg|]. split; [exact Hk|]. split; [intro
 
 Lemma launch_inv ex rerun seq repl m m' o :
   Forall good (mem m) -> skeleton m -> DiskOk (disk m) -> (ex = true -> Exact m) ->
-  launch rerun seq repl m = (m', o) -> MInv ex m'.
+  launch cur rerun seq repl m = (m', o) -> MInv ex m'.
 Proof.
   intros Hg Hk HD HS H. unfold launch in H. destruct rerun.
   - destruct (update_statuses m) as [m1 o1] eqn:Eu.
@@ -479,125 +477,70 @@ Proof.
   - eapply launch_loop_inv; [|exact H]. simpl. rewrite app_nil_r. apply LInv_start; assumption.
 Qed.
 
-Definition has_kw (kms : option Z) (kbad : bool) : bool := match kms with Some _ => true | None => kbad end.
-Definition plain_spec (s : spec) : Prop := s_dmap s = None /\ s_ctx s = None.
-Definition filled_spec (s : spec) : Prop := exists b, eff_body (job_of_spec s) = Some b.
-(* admissible operations: jobs without job_context / mapping parameters, and no max_samples left unfilled
-   next to a max_shots when add receives no keyword *)
-Definition op_ok (o : op) : Prop :=
-  match o with
-  | OAdd s _ kms kbad => plain_spec s /\ (has_kw kms kbad = false -> filled_spec s)
-  | _ => True
-  end.
-
-Lemma handle_params_keeps j kms kbad j' : handle_params j kms kbad = Some j' ->
-  jid j' = jid j /\ jst j' = jst j /\ jctx j' = jctx j /\ (jdmap j = None -> jdmap j' = None).
+Lemma handle_params_keeps j kms kbad j' : handle_params j kms kbad = Some j' -> jid j' = jid j /\ jst j' = jst j.
 Proof.
   unfold handle_params.
   destruct (match jdcmd j, kms with Some None, Some v => (Some (Some v), None) | d, k => (d, k) end) as [dc k1].
-  destruct (jdmap j) as [[a b]|] eqn:Em.
-  - destruct (match Some (a, b), k1 with Some (None, sh), Some v => (Some (Some v, sh), None) | d, k => (d, k) end) as [dm k2].
-    destruct k2; [discriminate|]. destruct kbad; [discriminate|]. intros H; inversion H; subst; simpl.
-    repeat split; try reflexivity. intros Hn; discriminate Hn.
-  - destruct k1; [discriminate|]. destruct kbad; [discriminate|]. intros H; inversion H; subst; simpl.
-    repeat split; reflexivity.
+  destruct (match jdmap j, k1 with Some (None, sh), Some v => (Some (Some v, sh), None) | d, k => (d, k) end) as [dm k2].
+  destruct k2; [discriminate|]. destruct kbad; [discriminate|]. intros H; inversion H; subst; simpl. split; reflexivity.
 Qed.
 
-Lemma add_job_inv m j kms kbad m' o :
-  Forall good (mem m) -> Exact m -> udirty m = false ->
-  plain j -> jwf j -> (has_kw kms kbad = false -> okj j) ->
-  add_job m j kms kbad = (m', o) -> Forall good (mem m') /\ Exact m' /\ udirty m' = false.
+(* JobGroup.add in the current code: the payload is prepared and validated BEFORE the append, so a job that cannot
+   be serialised never enters the group: either nothing changes, or a good job is appended and written *)
+Lemma add_job_cases m j kms kbad m' o : jwf j -> add_job cur m j kms kbad = (m', o) ->
+  (m' = m /\ o <> Returned) \/
+  (exists j', good j' /\ jid j' = jid j /\ mem m' = mem m ++ [j'] /\
+              ((save (mem m') = Some (disk m') /\ udirty m' = false /\ o = Returned) \/
+               (save (mem m') = None /\ disk m' = disk m /\ udirty m' = udirty m))).
 Proof.
-  intros Hg HS Hd Hp Hw Hok H. unfold add_job in H.
+  intros Hw H. unfold add_job in H.
   destruct (match jid j with Some i => zmem i (map jid (mem m)) | None => false end).
-  { inversion H; subst. repeat split; assumption. }
-  fold (has_kw kms kbad) in H.
-  assert (Hcase : (exists e, (if has_kw kms kbad
-                     then match handle_params j kms kbad with
-                          | None => inr E_KWARGS
-                          | Some j' => match eff_body j' with None => inr E_TYPE | Some _ => inl j' end
-                          end
-                     else inl j) = inr e) \/
-                  (exists j', (if has_kw kms kbad
-                     then match handle_params j kms kbad with
-                          | None => inr E_KWARGS
-                          | Some j' => match eff_body j' with None => inr E_TYPE | Some _ => inl j' end
-                          end
-                     else inl j) = inl j' /\ good j')).
-  { destruct (has_kw kms kbad) eqn:Ek.
-    - destruct (handle_params j kms kbad) as [j'|] eqn:Eh; [|left; eexists; reflexivity].
-      destruct (eff_body j') as [b|] eqn:Eb; [|left; eexists; reflexivity].
-      right. exists j'. split; [reflexivity|].
-      destruct (handle_params_keeps _ _ _ _ Eh) as (Hi & Hst & Hc & Hm). destruct Hp as [Hp1 Hp2].
-      split; [split; [apply Hm; exact Hp1|rewrite Hc; exact Hp2]|]. split; [exists b; exact Eb|].
-      unfold jwf. rewrite Hi, Hst. exact Hw.
-    - right. exists j. split; [reflexivity|]. split; [exact Hp|]. split; [apply Hok; reflexivity|exact Hw]. }
-  destruct Hcase as [[e He]|[j' [He Hj']]]; rewrite He in H.
-  - inversion H; subst. repeat split; assumption.
-  - assert (Hg' : Forall good (mem m ++ [j'])) by (rewrite Forall_app; split; [exact Hg|constructor; [exact Hj'|constructor]]).
-    destruct (save_good _ Hg') as [d Hs]. rewrite Hs in H. inversion H; subst; simpl.
-    repeat split; [exact Hg'|exact Hs].
+  { inversion H; subst. left. split; [reflexivity|discriminate]. }
+  cbn [add_validates cur orb] in H.
+  destruct (handle_params j kms kbad) as [j'|] eqn:Eh.
+  2:{ inversion H; subst. left. split; [reflexivity|discriminate]. }
+  destruct (eff_body j') as [b|] eqn:Eb.
+  2:{ inversion H; subst. left. split; [reflexivity|discriminate]. }
+  destruct (handle_params_keeps _ _ _ _ Eh) as (Hi & Hst).
+  right. exists j'. split; [split; [exists b; exact Eb|unfold jwf; rewrite Hi, Hst; exact Hw]|]. split; [exact Hi|].
+  destruct (save (mem m ++ [j'])) as [d|] eqn:Es; inversion H; subst; simpl.
+  - split; [reflexivity|]. left. repeat split; assumption.
+  - split; [reflexivity|]. right. repeat split; try reflexivity. exact Es.
 Qed.
 
-Lemma pre_exec_keeps j sc lg j' sc' lg' : pre_exec j sc lg = (j', sc', lg') -> jst j = WAITING ->
-  eff_body j' = eff_body j /\ jdmap j' = jdmap j /\ jctx j' = jctx j /\ jwf j'.
+Lemma pre_exec_keeps j sc lg j' sc' lg' : pre_exec j sc lg = (j', sc', lg') -> jst j = WAITING -> jwf j'.
 Proof.
   unfold pre_exec. intros H Hst. destruct (eff_body j) as [b|] eqn:Eb.
-  - destruct (pop sc) as [a sc1]. destruct a; inversion H; subst; simpl;
-      (repeat split; try reflexivity; try exact Eb); intros Hn; discriminate.
-  - inversion H; subst; simpl. repeat split; try reflexivity; try exact Eb. intros _; discriminate.
+  - destruct (pop sc) as [a sc1]. destruct a; inversion H; subst; simpl; intros Hn; discriminate.
+  - inversion H; subst; simpl. intros _; discriminate.
 Qed.
 
-(* the main step lemma. With ex = true: from an exact file, every operation (returning or raising) leaves all jobs
-   good and the file exact unless it reports an unwritten status change through the ghost flag. With ex = false:
-   from any reachable state, identifiers and metadata on disk are those of memory and the file is the image of good
-   jobs. *)
+(* the main step lemma, for EVERY operation (no admissibility condition on the jobs). With ex = true: from an exact
+   file, the operation (returning or raising) leaves all jobs good and the file exact unless it reports an unwritten
+   status change through the ghost flag. With ex = false: from any reachable state, identifiers and metadata on disk
+   are those of memory and the file is the image of good jobs. *)
 Theorem step_inv ex m o m' out :
-  Forall good (mem m) -> skeleton m -> DiskOk (disk m) -> (ex = true -> Exact m) -> op_ok o -> step m o = (m', out) ->
+  Forall good (mem m) -> skeleton m -> DiskOk (disk m) -> (ex = true -> Exact m) -> step cur m o = (m', out) ->
   Forall good (mem m') /\ skeleton m' /\ DiskOk (disk m') /\ (ex = true -> udirty m' = false -> Exact m').
 Proof.
-  intros Hg Hk HD HS Hok H. unfold step in H. destruct o as [|s pre kms kbad|seq|seq repl|].
+  intros Hg Hk HD HS H. unfold step in H. destruct o as [|s pre kms kbad|seq|seq repl|].
   - inversion H; subst; simpl. destruct HD as (l0 & Hg0 & Hs0). destruct (roundtrip_list _ _ Hg0 Hs0) as [H1 H2].
     split; [exact H2|]. split; [apply save_skeleton; exact H1|]. split; [exists l0; split; assumption|intros _ _; exact H1].
-  - simpl in H. destruct Hok as [[Hp1 Hp2] Hf].
-    assert (Hfresh : plain (job_of_spec s) /\ jwf (job_of_spec s)).
-    { split; [split; assumption|]. intros _; discriminate. }
-    assert (Hadd : forall j sc lg, plain j -> jwf j -> (has_kw kms kbad = false -> okj j) ->
-              add_job (mkm (mem m) (disk m) sc lg false) j kms kbad = (m', out) ->
+  - simpl in H.
+    assert (Hadd : forall j sc lg, jwf j ->
+              add_job cur (mkm (mem m) (disk m) sc lg false) j kms kbad = (m', out) ->
               Forall good (mem m') /\ skeleton m' /\ DiskOk (disk m') /\ (ex = true -> udirty m' = false -> Exact m')).
-    { intros j sc lg Hp Hw Ho Ha. pose proof Ha as Ha'. unfold add_job in Ha. cbn [mem disk scr rlog udirty] in Ha.
-      destruct ex.
-      - eapply add_job_inv in Ha'; try eassumption; try reflexivity; [|apply HS; reflexivity].
-        destruct Ha' as (A & B & C). split; [exact A|]. split; [apply save_skeleton; exact B|].
-        split; [exists (mem m'); split; assumption|intros _ _; exact B].
-      - (* weak: either unchanged, or a successful write of good jobs *)
-        destruct (match jid j with Some i => zmem i (map jid (mem m)) | None => false end).
-        { inversion Ha; subst; simpl. repeat split; try assumption; try discriminate. }
-        fold (has_kw kms kbad) in Ha.
-        destruct (has_kw kms kbad) eqn:Ek.
-        + destruct (handle_params j kms kbad) as [j'|] eqn:Eh.
-          2:{ inversion Ha; subst; simpl. repeat split; try assumption; try discriminate. }
-          destruct (eff_body j') as [b|] eqn:Eb.
-          2:{ inversion Ha; subst; simpl. repeat split; try assumption; try discriminate. }
-          destruct (handle_params_keeps _ _ _ _ Eh) as (Hi & Hst & Hc & Hm). destruct Hp as [Hq1 Hq2].
-          assert (Hj' : good j').
-          { split; [split; [apply Hm; exact Hq1|rewrite Hc; exact Hq2]|]. split; [exists b; exact Eb|].
-            unfold jwf. rewrite Hi, Hst. exact Hw. }
-          assert (Hg' : Forall good (mem m ++ [j'])) by (rewrite Forall_app; split; [exact Hg|constructor; [exact Hj'|constructor]]).
-          simpl in Ha. destruct (save_good _ Hg') as [d Hs]. rewrite Hs in Ha. inversion Ha; subst; simpl.
-          split; [exact Hg'|]. split; [apply save_skeleton; exact Hs|]. split; [eexists; split; eassumption|intros Hn; discriminate Hn].
-        + assert (Hj' : good j) by (split; [exact Hp|split; [apply Ho; reflexivity|exact Hw]]).
-          assert (Hg' : Forall good (mem m ++ [j])) by (rewrite Forall_app; split; [exact Hg|constructor; [exact Hj'|constructor]]).
-          simpl in Ha. destruct (save_good _ Hg') as [d Hs]. rewrite Hs in Ha. inversion Ha; subst; simpl.
-          split; [exact Hg'|]. split; [apply save_skeleton; exact Hs|]. split; [eexists; split; eassumption|intros Hn; discriminate Hn]. }
+    { intros j sc lg Hw Ha. destruct (add_job_cases _ _ _ _ _ _ Hw Ha) as [[-> _]|(j' & Hj' & _ & Hm & Hcase)].
+      - simpl. repeat split; try assumption. intros Ex _. exact (HS Ex).
+      - assert (Hg' : Forall good (mem m')).
+        { rewrite Hm. simpl. rewrite Forall_app. split; [exact Hg|constructor; [exact Hj'|constructor]]. }
+        destruct Hcase as [(Hs & _ & _)|(Hs & _ & _)].
+        + split; [exact Hg'|]. split; [apply save_skeleton; exact Hs|]. split; [exists (mem m'); split; assumption|intros _ _; exact Hs].
+        + destruct (save_good _ Hg') as [d Hd]. rewrite Hd in Hs. discriminate Hs. }
     destruct pre.
     + destruct (pre_exec (job_of_spec s) (scr m) (rlog m)) as [[j sc] lg] eqn:Ep.
-      destruct (pre_exec_keeps _ _ _ _ _ _ Ep eq_refl) as (He & Hm & Hc & Hw).
-      eapply Hadd; [| | |exact H].
-      * split; [rewrite Hm; exact Hp1|rewrite Hc; exact Hp2].
-      * exact Hw.
-      * intros E. destruct (Hf E) as [b Hb]. exists b. rewrite He. exact Hb.
-    + eapply Hadd; [| | |exact H]; [apply Hfresh|apply Hfresh|exact Hf].
+      eapply Hadd; [|exact H]. eapply pre_exec_keeps; [exact Ep|reflexivity].
+    + eapply Hadd; [|exact H]. intros _; discriminate.
   - apply (launch_inv ex) in H; try assumption. destruct H as (A & B & C & D). repeat split; assumption.
   - apply (launch_inv ex) in H; try assumption. destruct H as (A & B & C & D). repeat split; assumption.
   - apply (update_statuses_weak ex) in H; try assumption. destruct H as (A & B & C & D & E).
@@ -609,7 +552,7 @@ Qed.
 Fixpoint quiet (m : mach) (ops : list op) : Prop :=
   match ops with
   | [] => True
-  | o :: r => udirty (fst (step m o)) = false /\ quiet (fst (step m o)) r
+  | o :: r => udirty (fst (step cur m o)) = false /\ quiet (fst (step cur m o)) r
   end.
 
 Lemma Exact_skeleton m : Exact m -> skeleton m.
@@ -617,24 +560,24 @@ Proof. intros H. apply save_skeleton. exact H. Qed.
 Lemma Exact_DiskOk m : Forall good (mem m) -> Exact m -> DiskOk (disk m).
 Proof. intros Hg H. exists (mem m). split; assumption. Qed.
 
-Lemma run_weak : forall ops m, Forall good (mem m) -> skeleton m -> DiskOk (disk m) -> Forall op_ok ops ->
-  Forall good (mem (run m ops)) /\ skeleton (run m ops) /\ DiskOk (disk (run m ops)).
+Lemma run_weak : forall ops m, Forall good (mem m) -> skeleton m -> DiskOk (disk m) ->
+  Forall good (mem (run cur m ops)) /\ skeleton (run cur m ops) /\ DiskOk (disk (run cur m ops)).
 Proof.
-  induction ops as [|o r IH]; intros m Hg Hk HD Hok; simpl.
+  induction ops as [|o r IH]; intros m Hg Hk HD; simpl.
   - repeat split; assumption.
-  - inversion Hok; subst. destruct (step m o) as [m' out] eqn:E. simpl.
-    destruct (step_inv false m o m' out Hg Hk HD) as (A & B & C & _); [intros Hn; discriminate Hn|assumption|exact E|].
+  - destruct (step cur m o) as [m' out] eqn:E. simpl.
+    destruct (step_inv false m o m' out Hg Hk HD) as (A & B & C & _); [intros Hn; discriminate Hn|exact E|].
     apply IH; assumption.
 Qed.
 
-Lemma run_exact : forall ops m, Forall good (mem m) -> Exact m -> Forall op_ok ops -> quiet m ops ->
-  Forall good (mem (run m ops)) /\ Exact (run m ops).
+Lemma run_exact : forall ops m, Forall good (mem m) -> Exact m -> quiet m ops ->
+  Forall good (mem (run cur m ops)) /\ Exact (run cur m ops).
 Proof.
-  induction ops as [|o r IH]; intros m Hg HS Hok Hq; simpl.
+  induction ops as [|o r IH]; intros m Hg HS Hq; simpl.
   - split; assumption.
-  - inversion Hok; subst. destruct Hq as [Hq1 Hq2]. destruct (step m o) as [m' out] eqn:E. simpl in *.
+  - destruct Hq as [Hq1 Hq2]. destruct (step cur m o) as [m' out] eqn:E. simpl in *.
     destruct (step_inv true m o m' out Hg (Exact_skeleton _ HS) (Exact_DiskOk _ Hg HS)) as (A & B & C & D);
-      [intros _; exact HS|assumption|exact E|].
+      [intros _; exact HS|exact E|].
     apply IH; try assumption. apply D; [reflexivity|exact Hq1].
 Qed.
 
@@ -644,15 +587,16 @@ Proof. induction a as [|o r IH]; simpl; intros b m H; [exact Logic.I|]. destruct
 Lemma init_good sc : Forall good (mem (init sc)) /\ Exact (init sc).
 Proof. split; [constructor|reflexivity]. Qed.
 
-(* T-core 1 (partial): after every operation of every history over admissible jobs, for every server script, as long
-   as no operation reported an unwritten status change, the file is exactly the image of memory and re-opening the
-   group yields the same observable job list *)
+(* T-core 1: after every operation of EVERY history (any jobs, any keyword arguments), for every server script, as
+   long as no operation reported an unwritten status change, the file is exactly the image of memory and re-opening
+   the group yields the same observable job list. (Partial only because of the open launch-loop finding: the `quiet`
+   hypothesis cannot be dropped, see the two remaining counterexamples.) *)
 Theorem disk_matches_memory_partial : forall sc ops1 ops2,
-  Forall op_ok (ops1 ++ ops2) -> quiet (init sc) (ops1 ++ ops2) ->
-  Exact (run (init sc) ops1) /\ reload_equiv (run (init sc) ops1).
+  quiet (init sc) (ops1 ++ ops2) ->
+  Exact (run cur (init sc) ops1) /\ reload_equiv (run cur (init sc) ops1).
 Proof.
-  intros sc ops1 ops2 Hok Hq. apply Forall_app in Hok. destruct Hok as [Hok _]. apply quiet_app in Hq.
-  destruct (init_good sc) as [Hg HS]. destruct (run_exact ops1 (init sc) Hg HS Hok Hq) as [A B].
+  intros sc ops1 ops2 Hq. apply quiet_app in Hq.
+  destruct (init_good sc) as [Hg HS]. destruct (run_exact ops1 (init sc) Hg HS Hq) as [A B].
   split; [exact B|apply Exact_reload_equiv; assumption].
 Qed.
 
@@ -670,7 +614,7 @@ Proof.
 Qed.
 
 Lemma launch_par_clean repl : forall post pre app dk sc lg,
-  udirty (fst (launch_loop false false repl pre post app dk sc lg false)) = false.
+  udirty (fst (launch_loop cur false false repl pre post app dk sc lg false)) = false.
 Proof.
   induction post as [|j post IH]; intros pre app dk sc lg; simpl; [reflexivity|].
   unfold launch_one. destruct (sent j); [apply IH|].
@@ -682,19 +626,16 @@ Proof.
   - exact H.
 Qed.
 
-Lemma add_job_clean m j kms kbad : udirty m = false -> udirty (fst (add_job m j kms kbad)) = false.
+Lemma add_job_clean m j kms kbad : udirty m = false -> udirty (fst (add_job cur m j kms kbad)) = false.
 Proof.
   intros Hd. unfold add_job.
   destruct (match jid j with Some i => zmem i (map jid (mem m)) | None => false end); [exact Hd|].
-  destruct (if match kms with Some _ => true | None => kbad end
-            then match handle_params j kms kbad with
-                 | None => inr E_KWARGS
-                 | Some j' => match eff_body j' with None => inr E_TYPE | Some _ => inl j' end end
-            else inl j); [|exact Hd].
-  destruct (save (mem m ++ [j0])); simpl; [reflexivity|exact Hd].
+  cbn [add_validates cur orb].
+  destruct (handle_params j kms kbad) as [j'|]; [|exact Hd]. destruct (eff_body j'); [|exact Hd].
+  destruct (save (mem m ++ [j'])); simpl; [reflexivity|exact Hd].
 Qed.
 
-Lemma calm_step_clean m o : calm_op o -> udirty (fst (step m o)) = false.
+Lemma calm_step_clean m o : calm_op o -> udirty (fst (step cur m o)) = false.
 Proof.
   destruct o as [|s pre kms kbad|seq|seq repl|]; intros Hc; unfold step.
   - reflexivity.
@@ -714,40 +655,39 @@ Qed.
 
 (* re-open, add, run_parallel, progress/list_*: the file is exact after every operation, unconditionally *)
 Theorem disk_matches_memory_calm : forall sc ops,
-  Forall op_ok ops -> Forall calm_op ops -> Exact (run (init sc) ops) /\ reload_equiv (run (init sc) ops).
+  Forall calm_op ops -> Exact (run cur (init sc) ops) /\ reload_equiv (run cur (init sc) ops).
 Proof.
-  intros sc ops Hok Hc. rewrite <- (app_nil_r ops) in Hok.
-  apply (disk_matches_memory_partial sc ops []); [exact Hok|rewrite app_nil_r; apply calm_quiet; exact Hc].
+  intros sc ops Hc. apply (disk_matches_memory_partial sc ops []). rewrite app_nil_r. apply calm_quiet; exact Hc.
 Qed.
 
 (* T-core 2: identifiers (and platform metadata) on disk are those of memory after every operation of every history,
    returning or raising, flagged or not: a job accepted before a refusal keeps its identifier on disk; and whatever
    is on disk is the image of good jobs, so that re-opening restores an exact state *)
-Theorem accepted_ids_survive : forall sc ops, Forall op_ok ops ->
-  skeleton (run (init sc) ops) /\ Exact (fst (step (run (init sc) ops) OReopen)).
+Theorem accepted_ids_survive : forall sc ops,
+  skeleton (run cur (init sc) ops) /\ Exact (fst (step cur (run cur (init sc) ops) OReopen)).
 Proof.
-  intros sc ops Hok. destruct (init_good sc) as [Hg HS].
-  destruct (run_weak ops (init sc) Hg (Exact_skeleton _ HS) (Exact_DiskOk _ Hg HS) Hok) as (A & B & (l0 & C1 & C2)).
+  intros sc ops. destruct (init_good sc) as [Hg HS].
+  destruct (run_weak ops (init sc) Hg (Exact_skeleton _ HS) (Exact_DiskOk _ Hg HS)) as (A & B & (l0 & C1 & C2)).
   split; [exact B|]. unfold step, Exact; simpl. destruct (roundtrip_list _ _ C1 C2) as [H _]. exact H.
 Qed.
 
 (* T-core 3: what would be sent for a not-yet-successful job is the same from memory and from the re-opened group *)
-Lemma reload_body j d : good j -> to_disk j = Some d -> success (jst j) = false -> eff_body (from_disk d) = eff_body j.
+Lemma reload_body j d : good j -> to_disk j = Some d -> success (jst j) = false -> eff_body (from_disk cur d) = eff_body j.
 Proof.
-  intros (Hp & [b Hb] & Hw) H Hs. unfold to_disk in H. rewrite Hs, Hb in H. inversion H; subst; clear H.
-  destruct (eff_body_shape j b Hp Hb) as [Hcl Hctx]. rewrite from_disk_body.
+  intros ([b Hb] & Hw) H Hs. unfold to_disk in H. rewrite Hs, Hb in H. inversion H; subst; clear H.
+  pose proof (eff_body_shape j b Hb) as Hcl. rewrite from_disk_body.
   - rewrite eff_body_loaded by assumption. symmetry; exact Hb.
   - destruct (sent j); [|discriminate]. intros Hn; inversion Hn as [Hn']. rewrite Hn' in Hs. discriminate Hs.
 Qed.
 
 Lemma request_same_list : forall l d, Forall good l -> save l = Some d ->
-  Forall2 (fun j j' => jid j' = jid j /\ (success (jst j) = false -> eff_body j' = eff_body j)) l (load d).
+  Forall2 (fun j j' => jid j' = jid j /\ (success (jst j) = false -> eff_body j' = eff_body j)) l (load cur d).
 Proof.
   induction l as [|j r IH]; simpl; intros d Hg H.
   - inversion H; subst. constructor.
   - inversion Hg; subst. destruct (to_disk j) as [dj|] eqn:Ej; [|discriminate].
     destruct (save r) as [dr|] eqn:Er; [|discriminate]. inversion H; subst; clear H.
-    change (load (dj :: dr)) with (from_disk dj :: load dr). constructor; [|apply IH; [assumption|reflexivity]].
+    change (load cur (dj :: dr)) with (from_disk cur dj :: load cur dr). constructor; [|apply IH; [assumption|reflexivity]].
     split.
     + unfold to_disk in Ej. destruct (success (jst j)); [inversion Ej; subst|destruct (eff_body j); inversion Ej; subst];
         unfold from_disk; simpl; repeat (match goal with |- context [match ?x with _ => _ end] => destruct x end); reflexivity.
@@ -755,12 +695,12 @@ Proof.
 Qed.
 
 Theorem request_same_after_reopen : forall sc ops1 ops2,
-  Forall op_ok (ops1 ++ ops2) -> quiet (init sc) (ops1 ++ ops2) ->
-  let m := run (init sc) ops1 in
-  Forall2 (fun j j' => jid j' = jid j /\ (success (jst j) = false -> eff_body j' = eff_body j)) (mem m) (load (disk m)).
+  quiet (init sc) (ops1 ++ ops2) ->
+  let m := run cur (init sc) ops1 in
+  Forall2 (fun j j' => jid j' = jid j /\ (success (jst j) = false -> eff_body j' = eff_body j)) (mem m) (load cur (disk m)).
 Proof.
-  intros sc ops1 ops2 Hok Hq m. apply Forall_app in Hok. destruct Hok as [Hok _]. apply quiet_app in Hq.
-  destruct (init_good sc) as [Hg HS]. destruct (run_exact ops1 (init sc) Hg HS Hok Hq) as [A B].
+  intros sc ops1 ops2 Hq m. apply quiet_app in Hq.
+  destruct (init_good sc) as [Hg HS]. destruct (run_exact ops1 (init sc) Hg HS Hq) as [A B].
   apply request_same_list; assumption.
 Qed.
 
@@ -837,84 +777,103 @@ Qed.
 
 (* T-core 5: a job already present by identifier cannot be added twice: add raises and changes nothing *)
 Theorem no_duplicate_id : forall m j i kms kbad,
-  jid j = Some i -> In (Some i) (map jid (mem m)) -> add_job m j kms kbad = (m, Raised E_DUP).
+  jid j = Some i -> In (Some i) (map jid (mem m)) -> add_job cur m j kms kbad = (m, Raised E_DUP).
 Proof.
   intros m j i kms kbad Hi Hin. unfold add_job. rewrite Hi. apply zmem_In in Hin. rewrite Hin. reflexivity.
 Qed.
 
 (* and a job whose identifier is new is appended at the end, once *)
 Theorem add_appends_once : forall m j kms kbad m',
-  add_job m j kms kbad = (m', Returned) -> exists j', mem m' = mem m ++ [j'] /\ jid j' = jid j.
+  add_job cur m j kms kbad = (m', Returned) -> exists j', mem m' = mem m ++ [j'] /\ jid j' = jid j.
 Proof.
   intros m j kms kbad m' H. unfold add_job in H.
   destruct (match jid j with Some i => zmem i (map jid (mem m)) | None => false end); [discriminate|].
-  destruct (match kms with Some _ => true | None => kbad end) eqn:Ek.
-  - destruct (handle_params j kms kbad) as [j'|] eqn:Eh; [|discriminate].
-    destruct (eff_body j'); [|discriminate].
-    destruct (save (mem m ++ [j'])); inversion H; subst; simpl. exists j'. split; [reflexivity|].
-    apply (handle_params_keeps _ _ _ _ Eh).
-  - destruct (save (mem m ++ [j])); inversion H; subst; simpl. exists j. split; reflexivity.
+  cbn [add_validates cur orb] in H.
+  destruct (handle_params j kms kbad) as [j'|] eqn:Eh; [|discriminate].
+  destruct (eff_body j'); [|discriminate].
+  destruct (save (mem m ++ [j'])); inversion H; subst; simpl. exists j'. split; [reflexivity|].
+  apply (handle_params_keeps _ _ _ _ Eh).
 Qed.
 
-Local Open Scope Z_scope.
+(* T-core 5b (current code): an add that raises, for whatever reason (duplicate, unused keyword, payload that cannot
+   be serialised), changes nothing, in memory or on disk *)
+Theorem add_raises_changes_nothing : forall m j kms kbad m' e,
+  Forall good (mem m) -> jwf j -> add_job cur m j kms kbad = (m', Raised e) -> m' = m.
+Proof.
+  intros m j kms kbad m' e Hg Hw H. destruct (add_job_cases _ _ _ _ _ _ Hw H) as [[-> _]|(j' & Hj' & _ & Hm & Hcase)].
+  - reflexivity.
+  - exfalso. destruct Hcase as [(_ & _ & Ho)|(Hs & _ & _)]; [discriminate Ho|].
+    assert (Hg' : Forall good (mem m')) by (rewrite Hm, Forall_app; split; [exact Hg|constructor; [exact Hj'|constructor]]).
+    destruct (save_good _ Hg') as [d Hd]. rewrite Hd in Hs. discriminate Hs.
+Qed.
+
 (* ------------------------------------------------------------------ witnesses *)
+Local Open Scope Z_scope.
 Definition sp (n : Z) : spec := mkspec n (mkpay None None 1) None None None 0.
 (* a job with a result-mapping context, as Sampler builds for sample_count on a 'samples' platform *)
 Definition sp_ctx : spec := mkspec 1 (mkpay None (Some (Some 10)) 1) None None (Some 7) 0.
 (* a job whose max_samples is to be filled by add(job, max_samples=...) *)
 Definition sp_unfilled : spec := mkspec 1 (mkpay None (Some (Some 10)) 1) (Some None) None None 0.
 
-(* The full statement — forall ops sc, reload_equiv (run (init sc) ops) — is false of the faithful model: *)
+Definition reload_equiv_old (m : mach) : Prop := map obs (load old (disk m)) = map obs (mem m).
 
-(* (a) job_context is not restored by _from_dict: the re-opened job would send job_context = None *)
-Theorem disk_matches_memory_refuted_context :
-  exists ops sc, ~ reload_equiv (run (init sc) ops).
-Proof. exists [OAdd sp_ctx false None false], []. unfold reload_equiv. vm_compute. intros H. discriminate H. Qed.
+(* HISTORICAL, about the code before bf317fcd / 13320b52 (configuration `old`); both are theorems of the current
+   configuration now (disk_matches_memory_calm covers them), and the driver keeps the witnesses as regression guards. *)
+
+(* (a) job_context was not restored by _from_dict: the re-opened job would send job_context = None *)
+Theorem disk_matches_memory_refuted_context_old_code :
+  exists ops sc, ~ reload_equiv_old (run old (init sc) ops).
+Proof. exists [OAdd sp_ctx false None false], []. unfold reload_equiv_old. vm_compute. intros H. discriminate H. Qed.
 
 (* (b) add(job) with max_samples left unfilled next to max_shots: TypeError after the append, nothing written *)
-Theorem disk_matches_memory_refuted_unfilled :
-  exists ops sc, snd (step (init sc) (hd OReopen ops)) = Raised E_TYPE /\ ~ reload_equiv (run (init sc) ops).
+Theorem disk_matches_memory_refuted_unfilled_old_code :
+  exists ops sc, snd (step old (init sc) (hd OReopen ops)) = Raised E_TYPE /\ ~ reload_equiv_old (run old (init sc) ops).
 Proof.
   exists [OAdd sp_unfilled false None false], []. split; [reflexivity|].
-  unfold reload_equiv. vm_compute. intros H. discriminate H.
+  unfold reload_equiv_old. vm_compute. intros H. discriminate H.
 Qed.
 
-(* (c) admissible jobs, rerun_failed_parallel RETURNS: `job.is_failed` refreshed a status (WAITING -> RUNNING) and no
-   write followed *)
-Theorem disk_matches_memory_refuted_rerun_loop :
-  exists ops sc, Forall op_ok ops /\ snd (step (run (init sc) (removelast ops)) (last ops OReopen)) = Returned /\
-                 ~ reload_equiv (run (init sc) ops).
-Proof.
-  exists [OAdd (sp 1) true None false; ORerun false false], [AOk 10 WAITING; AOk 11 WAITING; AOk 12 RUNNING].
-  split; [|split; [vm_compute; reflexivity|unfold reload_equiv; vm_compute; intros H; discriminate H]].
-  repeat constructor; intros _; eexists; reflexivity.
-Qed.
-
-(* (d) admissible jobs, run_sequential RAISES while polling after a status change (WAITING -> RUNNING, then HTTP 500) *)
-Theorem disk_matches_memory_refuted_sequential_wait :
-  exists ops sc, Forall op_ok ops /\ snd (step (run (init sc) (removelast ops)) (last ops OReopen)) = Raised E_HTTP /\
-                 ~ reload_equiv (run (init sc) ops).
-Proof.
-  exists [OAdd (sp 1) false None false; ORun true], [AOk 10 WAITING; AOk 11 RUNNING].
-  split; [|split; [vm_compute; reflexivity|unfold reload_equiv; vm_compute; intros H; discriminate H]].
-  repeat constructor; intros _; eexists; reflexivity.
-Qed.
-
-(* the request sent differs when the group is re-opened before the launch (job_context lost) *)
-Theorem request_same_after_reopen_refuted :
-  exists s sc, rlog (run (init sc) [OAdd s false None false; ORun false]) <>
-               rlog (run (init sc) [OAdd s false None false; OReopen; ORun false]).
+(* the request sent differed when the group was re-opened before the launch (job_context lost) *)
+Theorem request_same_after_reopen_refuted_old_code :
+  exists s sc, rlog (run old (init sc) [OAdd s false None false; ORun false]) <>
+               rlog (run old (init sc) [OAdd s false None false; OReopen; ORun false]).
 Proof. exists sp_ctx, [AOk 10 WAITING]. vm_compute. intros H. discriminate H. Qed.
 
-(* the hypotheses of the partial theorems are satisfiable by a non-trivial history: two adds (one filled by keyword),
-   a parallel launch refused at the second job, progress, a re-run with replacement, re-open, a sequential launch *)
+(* the same three histories on the current code *)
+Example repaired_witnesses :
+  reload_equiv (run cur (init []) [OAdd sp_ctx false None false]) /\
+  step cur (init []) (OAdd sp_unfilled false None false) = (init [], Raised E_TYPE) /\
+  rlog (run cur (init [AOk 10 WAITING]) [OAdd sp_ctx false None false; ORun false]) =
+  rlog (run cur (init [AOk 10 WAITING]) [OAdd sp_ctx false None false; OReopen; ORun false]).
+Proof. unfold reload_equiv. vm_compute. repeat split. Qed.
+
+(* CURRENT code: the full statement — forall ops sc, reload_equiv (run cur (init sc) ops) — is still false: *)
+
+(* (c) rerun_failed_parallel RETURNS: `job.is_failed` refreshed a status (WAITING -> RUNNING) and no write followed *)
+Theorem disk_matches_memory_refuted_rerun_loop :
+  exists ops sc, snd (step cur (run cur (init sc) (removelast ops)) (last ops OReopen)) = Returned /\
+                 ~ reload_equiv (run cur (init sc) ops).
+Proof.
+  exists [OAdd (sp 1) true None false; ORerun false false], [AOk 10 WAITING; AOk 11 WAITING; AOk 12 RUNNING].
+  split; [vm_compute; reflexivity|unfold reload_equiv; vm_compute; intros H; discriminate H].
+Qed.
+
+(* (d) run_sequential RAISES while polling after a status change (WAITING -> RUNNING, then HTTP 500) *)
+Theorem disk_matches_memory_refuted_sequential_wait :
+  exists ops sc, snd (step cur (run cur (init sc) (removelast ops)) (last ops OReopen)) = Raised E_HTTP /\
+                 ~ reload_equiv (run cur (init sc) ops).
+Proof.
+  exists [OAdd (sp 1) false None false; ORun true], [AOk 10 WAITING; AOk 11 RUNNING].
+  split; [vm_compute; reflexivity|unfold reload_equiv; vm_compute; intros H; discriminate H].
+Qed.
+
+(* the hypothesis of the partial theorems is satisfiable by a non-trivial history: a job with a result-mapping
+   context, a job filled by keyword, a parallel launch refused at the second job, progress, re-open, launch,
+   a re-run with replacement, a sequential launch *)
 Example hypotheses_satisfiable :
-  let ops := [OAdd (sp 1) false None false; OAdd sp_unfilled false (Some 5) false; ORun false; OProgress;
+  let ops := [OAdd sp_ctx false None false; OAdd sp_unfilled false (Some 5) false; ORun false; OProgress;
               OReopen; ORun false; OProgress; ORerun false true; OProgress; ORun true] in
   let sc := [AOk 10 WAITING; AFatal; AOk 0 ERROR; AOk 11 WAITING; AOk 0 RUNNING; AOk 0 SUCCESS; AOk 12 WAITING;
              AOk 0 SUCCESS] in
-  Forall op_ok ops /\ quiet (init sc) ops /\ length (mem (run (init sc) ops)) = 2%nat.
-Proof.
-  split; [|split; [vm_compute; repeat split|vm_compute; reflexivity]].
-  repeat constructor; try (intros _; eexists; reflexivity); try (intros H; discriminate H).
-Qed.
+  quiet (init sc) ops /\ length (mem (run cur (init sc) ops)) = 2%nat.
+Proof. split; [vm_compute; repeat split|vm_compute; reflexivity]. Qed.
